@@ -41,6 +41,11 @@ static size_t put_name(const char *name, size_t namesize) {
     return NAME_POISON(name + namesize, 1) ? namesize : namesize + 1;
 }
 
+/* ambient errno: the value the caller brings into EVERY library call cycles through these (op counter) */
+static unsigned amb_n = 0;
+static const int AMB[8] = {0, ENOMEM, ERANGE, EINTR, ENOENT, EINVAL, EAGAIN, ENOBUFS};
+#define PLANT() (errno = AMB[amb_n++ & 7])
+
 typedef struct { void *p; void *dup; size_t n; } kept_t;
 static kept_t *kept; static size_t nkept, capkept;
 static void keep(void *p, size_t n) {
@@ -98,7 +103,7 @@ int main(void) {
         if (nw == 0) continue;
         const char *op = w[0];
         alarm(5);
-        errno = 0;
+        PLANT();
         if ((!strcmp(op, "fault") || !strcmp(op, "faultfrom")) && nw == 2) {
             aw_arm(atol(w[1]), op[5] == 'f');
             printf("ok"); tail(1); printf("\n"); continue;
@@ -109,7 +114,7 @@ int main(void) {
             memsize = strtoull(w[1], NULL, 10);
             mem = malloc(memsize ? memsize : 1); before = malloc(memsize ? memsize : 1);
             memset(mem, 0xEE, memsize);
-            aw_begin(); errno = 0;
+            aw_begin(); PLANT();
             tbl = qhasharr(mem, memsize);
             int e = errno; long a = aw_end();
             if (tbl) printf("allocs=%ld ok", a);
@@ -122,7 +127,7 @@ int main(void) {
         if (!strcmp(op, "attach") && nw == 1) {
             if (!mem || tbl) { printf("bad-state\n"); continue; }
             snapshot();
-            aw_begin(); errno = 0;
+            aw_begin(); PLANT();
             tbl = qhasharr(mem, 0);
             int e = errno; long a = aw_end();
             if (tbl) printf("allocs=%ld ok", a); else printf("allocs=%ld null %s", a, errname(e));
@@ -130,7 +135,7 @@ int main(void) {
         }
         if (!strcmp(op, "free") && nw == 1) {
             if (!tbl) { printf("bad-state\n"); continue; }
-            snapshot(); tbl->free(tbl); tbl = NULL;
+            snapshot(); PLANT(); tbl->free(tbl); tbl = NULL;
             printf("ok"); tail(unchanged()); printf("\n"); continue;
         }
         if (!strcmp(op, "check") && nw == 1) { printf("kept=%zu bad=%ld", nkept, kept_bad()); tail(1); printf("\n"); continue; }
@@ -156,11 +161,11 @@ int main(void) {
             bool ok;
             if (op[3] == 's') {
                 char *ks = cstr_exact(&k), *vs = cstr_exact(&v);
-                aw_begin(); errno = 0;
+                aw_begin(); PLANT();
                 ok = tbl->putstrf(tbl, ks, "%s", vs);
                 free(ks); free(vs);
             } else {
-                aw_begin(); errno = 0;
+                aw_begin(); PLANT();
                 ok = tbl->put_by_obj(tbl, k.p, k.n, v.p, v.n);
             }
             int e = errno; long a = aw_end();
@@ -169,18 +174,18 @@ int main(void) {
         } else if (!strcmp(op, "rm") && nw == 4) {
             bytes_t k;
             if (!unhex(w[1], &k)) { printf("bad-op\n"); continue; }
-            aw_begin(); errno = 0;
+            aw_begin(); PLANT();
             bool ok = tbl->remove_by_obj(tbl, (const char *) k.p, k.n);
             int e = errno; long a = aw_end();
             if (ok) printf("allocs=%ld ok", a); else printf("allocs=%ld false %s", a, errname(e));
             free(k.p);
         } else if (!strcmp(op, "rmi") && nw == 2) {
-            aw_begin(); errno = 0;
+            aw_begin(); PLANT();
             bool ok = tbl->remove_by_idx(tbl, (int) strtol(w[1], NULL, 10));
             int e = errno; long a = aw_end();
             if (ok) printf("allocs=%ld ok", a); else printf("allocs=%ld false %s", a, errname(e));
         } else if (!strcmp(op, "clear") && nw == 1) {
-            aw_begin(); tbl->clear(tbl); long a = aw_end();
+            aw_begin(); PLANT(); tbl->clear(tbl); long a = aw_end();
             printf("allocs=%ld ok", a);
         } else if ((!strcmp(op, "get") || !strcmp(op, "getstr")) && nw == 4) {
             bytes_t k;
@@ -190,12 +195,12 @@ int main(void) {
                 char *ks = cstr_exact(&k);
                 /* getstr() does not report the size: learn it with a plain get first (no window) */
                 size_t sz0 = 0; void *probe = tbl->get(tbl, ks, &sz0); if (probe) vf_free(probe);
-                aw_begin(); errno = 0;
+                aw_begin(); PLANT();
                 d = tbl->getstr(tbl, ks);
                 e = errno; a = aw_end(); sz = sz0;
                 free(ks);
             } else {
-                aw_begin(); errno = 0;
+                aw_begin(); PLANT();
                 d = tbl->get_by_obj(tbl, k.p, k.n, &sz);
                 e = errno; a = aw_end();
             }
@@ -205,7 +210,7 @@ int main(void) {
         } else if (!strcmp(op, "next") && nw == 2) {
             int idx = (int) strtol(w[1], NULL, 10); qhasharr_obj_t obj;
             memset(&obj, 0, sizeof obj);
-            aw_begin(); errno = 0;
+            aw_begin(); PLANT();
             bool ok = tbl->getnext(tbl, &obj, &idx);
             int e = errno; long a = aw_end();
             if (ok) {
@@ -217,7 +222,7 @@ int main(void) {
         } else if (!strcmp(op, "walk") && nw == 1) {
             int idx = 0; qhasharr_obj_t obj;
             printf("walk");
-            while (tbl->getnext(tbl, &obj, &idx)) {
+            while (PLANT(), tbl->getnext(tbl, &obj, &idx)) {
                 printf(" %d:", idx - 1); size_t nk = put_name(obj.name, obj.namesize); printf("="); puthex(stdout, obj.data, obj.datasize);
                 keep(obj.name, nk); keep(obj.data, obj.datasize);
             }
